@@ -25,12 +25,13 @@ CONSTANTS
     MaxReopen,   \* bound on close+reopen cycles
     MaxMaint,    \* bound on maintenance steps (rotate/flush/compact/gc)
     MaxViews,    \* bound on views opened
-    EnBatch, EnClear, EnIngest, EnKs, EnJRot, EnViews, EnCompact, EnRemove,
+    EnBatch, EnClear, EnIngest, EnKs, EnJRot, EnViews, EnCompact, EnRemove, EnPersist,
     FilterNames, \* names for which the builder's assigner returns a filter factory (C18)
     FixCovered,  \* model of repair: recovery skips journal records covered by tables
     FixSeqno,    \* model of repair: recovery restores seqno above every journal record
     FixIdSeed,   \* model of repair: keyspace id counter never reuses an id still in a journal
-    FixMetaSeqno \* model of repair: recovery restores seqno above the meta keyspace's entries
+    FixMetaSeqno, \* model of repair: recovery restores seqno above the meta keyspace's entries
+    FixTrkZero   \* model of repair: tracker gc no longer uses instant 0 as its 'unset' marker
 
 VARIABLES
     seqno,      \* next sequence number to hand out           (supervisor.seqno)
@@ -54,6 +55,7 @@ VARIABLES
     ref,        \* [Names -> [Keys -> Nat]] reference map (0 = absent) for existing names
     frozen,     \* [vid -> [Names -> [Keys -> Nat]]] content of each view when opened
     taint,      \* set of ids whose recovered state is known to be affected by a known finding
+    mtaint,     \* ids that MAY be affected by D1D2 depending on what compaction did to the tables (replay waiver only)
     ing,        \* [1..MaxId -> Nat] global seqno + 1 of the latest bulk ingestion into the tree (0 = none)
     kf,         \* set of known-finding labels that apply to the current state
     everDel,    \* set of values ever written to a keyspace that was deleted afterwards
@@ -61,7 +63,7 @@ VARIABLES
     last        \* label of the last action (for export only)
 
 vars == <<seqno, visible, nextId, kmap, meta, dirs, lsm, old, zombie, held, journals, jmgr,
-          flushq, views, trk, filt, ref, frozen, taint, ing, kf, everDel,
+          flushq, views, trk, filt, ref, frozen, taint, mtaint, ing, kf, everDel,
           nops, nreopen, nmaint, nviews, last>>
 
 Ids == 1..MaxId
@@ -177,14 +179,18 @@ TrkDec(T, i) ==
        ELSE LET d == CHOOSE d \in r : TRUE
             IN [T EXCEPT !.data = (@ \ {d}) \cup
                     {[inst |-> i, cnt |-> IF d.cnt = 0 THEN 0 ELSE d.cnt - 1]}]
-\* gc(): retain entries with count > 0 or instant >= visible; watermark := max(wm, lowest-1)
+\* gc(): retain entries with count > 0 or instant >= visible; watermark := max(wm, lowest-1).
+\* Before the repair the fold over the retained instants used 0 as its "unset" marker: a
+\* retained instant 0 reset the fold, so the result depended on the hash-map iteration order
+\* and could be any later retained instant (modelled by its worst case, the largest one).
 TrkGC(T, vis) ==
     LET keep == {d \in T.data : d.cnt > 0 \/ d.inst >= vis}
         insts == {d.inst : d \in keep}
-        \* the code's fold treats 0 as "unset"
         nz == {i \in insts : i # 0}
         lowest == IF keep = {} THEN vis
+                  ELSE IF FixTrkZero THEN CHOOSE x \in insts : \A y \in insts : x <= y
                   ELSE IF nz = {} THEN 0
+                  ELSE IF 0 \in insts THEN MaxOf(nz)
                   ELSE CHOOSE x \in nz : \A y \in nz : x <= y
         cand == IF lowest = 0 THEN 0 ELSE lowest - 1
     IN [data |-> keep, wm |-> IF cand > T.wm THEN cand ELSE T.wm]
@@ -251,6 +257,7 @@ Init ==
     /\ frozen = <<>>
     /\ taint = {} /\ kf = {} /\ everDel = {}
     /\ ing = [i \in Ids |-> 0]
+    /\ mtaint = {}
     /\ nops = 0 /\ nreopen = 0 /\ nmaint = 0 /\ nviews = 0
     /\ last = [a |-> "Init"]
 
@@ -282,7 +289,7 @@ CreateKeyspace(n) ==
        /\ ref' = [ref EXCEPT ![n] = NoRef]
        /\ ing' = [ing EXCEPT ![id] = 0]
        /\ last' = [a |-> "Create", name |-> n]
-    /\ UNCHANGED <<zombie, held, journals, jmgr, flushq, views, trk, frozen, taint, kf,
+    /\ UNCHANGED <<zombie, held, journals, jmgr, flushq, views, trk, frozen, taint, mtaint, kf,
                    everDel, nops, nreopen, nmaint, nviews>>
 
 \* Database::delete_keyspace(handle): tombstones in the meta tree (draws a seqno explicitly and
@@ -309,7 +316,7 @@ DeleteKeyspace(n, keepHandle) ==
                                                    \cup UnionSeq(lsm[id].rn) : x.t = "V"}}
        /\ ref' = [ref EXCEPT ![n] = NoRef]
        /\ last' = [a |-> "Delete", name |-> n, keep |-> keepHandle]
-    /\ UNCHANGED <<nextId, journals, jmgr, flushq, views, trk, filt, frozen, taint, ing, kf,
+    /\ UNCHANGED <<nextId, journals, jmgr, flushq, views, trk, filt, frozen, taint, mtaint, ing, kf,
                    nops, nreopen, nmaint, nviews>>
 
 \* the client drops its clone of a deleted keyspace's handle
@@ -326,7 +333,7 @@ DropHandle(id) ==
        /\ old' = [i \in Ids |-> IF i \in rp THEN <<>> ELSE old[i]]
        /\ last' = [a |-> "DropHandle", id |-> id]
     /\ UNCHANGED <<seqno, visible, nextId, kmap, meta, journals, jmgr, flushq, views, trk,
-                   filt, ref, frozen, taint, ing, kf, everDel, nops, nreopen, nmaint, nviews>>
+                   filt, ref, frozen, taint, mtaint, ing, kf, everDel, nops, nreopen, nmaint, nviews>>
 
 -----------------------------------------------------------------------------
 (* Client writes (atomic: the journal mutex is held from draw to publish)    *)
@@ -352,7 +359,7 @@ Write(n, k, isDel) ==
        /\ last' = [a |-> IF isDel THEN "Remove" ELSE "Insert", name |-> n, k |-> k, v |-> e.v]
     /\ nops' = nops + 1
     /\ UNCHANGED <<nextId, kmap, meta, dirs, old, zombie, held, jmgr, flushq, views, trk,
-                   filt, frozen, taint, ing, kf, everDel, nreopen, nmaint, nviews>>
+                   filt, frozen, taint, mtaint, ing, kf, everDel, nreopen, nmaint, nviews>>
 
 \* a batch of two items (possibly over two keyspaces, possibly the same key twice)
 BatchCommit(n1, k1, d1, n2, k2, d2) ==
@@ -384,7 +391,7 @@ BatchCommit(n1, k1, d1, n2, k2, d2) ==
                                               [name |-> n2, k |-> k2, v |-> e2.v, del |-> d2]>>]
     /\ nops' = nops + 1
     /\ UNCHANGED <<nextId, kmap, meta, dirs, old, zombie, held, jmgr, flushq, views, trk,
-                   filt, frozen, taint, ing, kf, everDel, nreopen, nmaint, nviews>>
+                   filt, frozen, taint, mtaint, ing, kf, everDel, nreopen, nmaint, nviews>>
 
 \* Keyspace::clear: draw s, journal clear record, tree.clear() = version upgrade (draws a
 \* second seqno for the version, bumps visible), publish(s)
@@ -406,7 +413,7 @@ Clear(n) ==
        /\ last' = [a |-> "Clear", name |-> n]
     /\ nops' = nops + 1
     /\ UNCHANGED <<nextId, kmap, meta, dirs, zombie, held, jmgr, flushq, views, trk,
-                   filt, frozen, taint, kf, everDel, nreopen, nmaint, nviews>>
+                   filt, frozen, taint, mtaint, kf, everDel, nreopen, nmaint, nviews>>
 
 \* Ingestion::finish with a non-empty sorted stream ks (set of keys; tomb = the keys written as
 \* tombstones): under the journal mutex: rotate + flush the memtables (version upgrade #1, flush
@@ -447,7 +454,7 @@ Ingest(n, ks, tomb) ==
        /\ last' = [a |-> "Ingest", name |-> n, keys |-> ks, tombs |-> tomb, v |-> v]
     /\ nops' = nops + 1
     /\ UNCHANGED <<nextId, kmap, meta, dirs, zombie, held, journals, jmgr, flushq, views,
-                   filt, frozen, taint, kf, everDel, nreopen, nmaint, nviews>>
+                   filt, frozen, taint, mtaint, kf, everDel, nreopen, nmaint, nviews>>
 
 -----------------------------------------------------------------------------
 (* Maintenance                                                               *)
@@ -485,7 +492,7 @@ Rotate(n) ==
        /\ last' = [a |-> "Rotate", name |-> n]
     /\ nmaint' = nmaint + 1
     /\ UNCHANGED <<seqno, visible, nextId, kmap, meta, held, views, filt, ref, frozen,
-                   taint, ing, kf, everDel, nops, nreopen, nviews>>
+                   taint, mtaint, ing, kf, everDel, nops, nreopen, nviews>>
 
 \* worker_tick(Flush): dequeue a task; if jrot, rotate the journal first (sync old journal,
 \* create the next one, capture the watermarks = highest memtable seqno of every keyspace in
@@ -528,7 +535,7 @@ WorkerFlush(jrot) ==
        /\ dirs' = dirs \ rp
        /\ last' = [a |-> "Flush", jrot |-> jrot, id |-> id]
     /\ nmaint' = nmaint + 1
-    /\ UNCHANGED <<nextId, kmap, meta, held, views, trk, filt, ref, frozen, taint, ing, kf,
+    /\ UNCHANGED <<nextId, kmap, meta, held, views, trk, filt, ref, frozen, taint, mtaint, ing, kf,
                    everDel, nops, nreopen, nviews>>
 
 \* compaction: runs i..j (in read order) are merged into one run at position i; tombstones are
@@ -557,7 +564,21 @@ Compact(n, i, j) ==
                       i |-> i, j |-> j]
     /\ nmaint' = nmaint + 1
     /\ UNCHANGED <<nextId, kmap, meta, dirs, zombie, held, journals, jmgr, flushq, views, trk,
-                   filt, ref, frozen, taint, ing, kf, everDel, nops, nreopen, nviews>>
+                   filt, ref, frozen, taint, mtaint, ing, kf, everDel, nops, nreopen, nviews>>
+
+\* Database::persist(mode): flushes the journal buffer to the OS and, for SyncData/SyncAll,
+\* syncs the active journal.  No logical state changes at this granularity; the durability
+\* it buys is specified in FjallCrash and checked by the crash / power-loss campaigns, which
+\* use these steps as sync points.
+Persist(m) ==
+    /\ EnPersist
+    /\ nmaint < MaxMaint
+    /\ m \in {"Buffer", "SyncData", "SyncAll"}
+    /\ last' = [a |-> "Persist", mode |-> m]
+    /\ nmaint' = nmaint + 1
+    /\ UNCHANGED <<seqno, visible, nextId, kmap, meta, dirs, lsm, old, zombie, held, journals,
+                   jmgr, flushq, views, trk, filt, ref, frozen, taint, mtaint, ing, kf, everDel, nops,
+                   nreopen, nviews>>
 
 -----------------------------------------------------------------------------
 (* Views                                                                     *)
@@ -575,7 +596,7 @@ OpenView ==
        /\ nviews' = vid
        /\ last' = [a |-> "OpenView", vid |-> vid]
     /\ UNCHANGED <<seqno, visible, nextId, kmap, meta, dirs, lsm, old, zombie, held, journals,
-                   jmgr, flushq, filt, ref, taint, ing, kf, everDel, nops, nreopen, nmaint>>
+                   jmgr, flushq, filt, ref, taint, mtaint, ing, kf, everDel, nops, nreopen, nmaint>>
 
 CloseView(w) ==
     /\ w \in views
@@ -583,7 +604,7 @@ CloseView(w) ==
     /\ trk' = TrkDec(trk, w.inst)
     /\ last' = [a |-> "CloseView", vid |-> w.vid]
     /\ UNCHANGED <<seqno, visible, nextId, kmap, meta, dirs, lsm, old, zombie, held, journals,
-                   jmgr, flushq, filt, ref, frozen, taint, ing, kf, everDel, nops, nreopen, nmaint,
+                   jmgr, flushq, filt, ref, frozen, taint, mtaint, ing, kf, everDel, nops, nreopen, nmaint,
                    nviews>>
 
 TrackerGC ==
@@ -594,7 +615,7 @@ TrackerGC ==
     /\ last' = [a |-> "GC"]
     /\ nmaint' = nmaint + 1
     /\ UNCHANGED <<seqno, visible, nextId, kmap, meta, dirs, lsm, old, zombie, held, journals,
-                   jmgr, flushq, views, filt, ref, frozen, taint, ing, kf, everDel, nops, nreopen,
+                   jmgr, flushq, views, filt, ref, frozen, taint, mtaint, ing, kf, everDel, nops, nreopen,
                    nviews>>
 
 -----------------------------------------------------------------------------
@@ -685,67 +706,79 @@ ReplayOverIngested(js, known) ==
         /\ \E x \in 1..Len(js) : \E y \in 1..Len(js[x].recs) :
               LET r == js[x].recs[y] IN
               /\ r.s + 1 < ing[id]
+              \* ... and the record is not skipped as covered by the tables
+              /\ ~(FixCovered /\ HighestPersisted(lsm[id]) # 0 /\ HighestPersisted(lsm[id]) - 1 >= r.s)
+              /\ \/ \E z \in 1..Len(r.clears) : r.clears[z] = id
+                 \/ \E z \in 1..Len(r.items) : r.items[z].id = id}
+
+\* what Database::recover computes from the durable state (journal files, tables, meta
+\* keyspace, keyspace folders) - used by CloseReopen and, as "what a crash right now would
+\* recover", by the CrashSafe invariant
+Rec ==
+    LET \* drop: every handle goes away; deleted keyspaces' folders are removed
+        dirs0  == dirs \ zombie
+        \* recover_keyspaces
+        known  == {id \in dirs0 : MetaResolves(meta, id)}
+        highest == MaxOf(dirs0 \cup {1})
+        seedFix == MaxOf({highest} \cup
+                         UNION {{r.items[z].id : z \in 1..Len(r.items)} \cup
+                                {r.clears[z] : z \in 1..Len(r.clears)} :
+                                  r \in UNION {{journals[x].recs[y] : y \in 1..Len(journals[x].recs)}
+                                                : x \in 1..Len(journals)}})
+        L0 == [i \in Ids |-> IF i \in known
+                             THEN [a |-> {}, sl |-> <<>>, rn |-> lsm[i].rn, vs |-> 0]
+                             ELSE EmptyLsm]
+        sealedJs == SubSeq(journals, 1, Len(journals) - 1)
+        rs == RecoverSealed(L0, sealedJs, known,
+                            [L |-> L0, jm |-> <<>>, panic |-> FALSE, sq |-> 0])
+        L1 == ReplayRecs(rs.L, Active.recs, known, FixCovered)
+        sq1 == MaxOf({rs.sq} \cup {HighestSeqno(L1[i]) : i \in known})
+        sq1b == IF FixSeqno THEN MaxOf({sq1} \cup {s + 1 : s \in JournalSeqnos(journals)})
+                ELSE sq1
+        sq2 == IF FixMetaSeqno THEN MaxOf({sq1b} \cup {e.s + 1 : e \in meta}) ELSE sq1b
+    IN [known |-> known,
+        nextId |-> IF FixIdSeed THEN seedFix + 1 ELSE highest + 1,
+        L |-> L1, jm |-> rs.jm, panic |-> rs.panic, sq |-> sq2,
+        tnt |-> ReplayOverIngested(journals, known),
+        km |-> [n \in Names |-> IF \E id \in known : MetaName(meta, id) = n
+                                THEN CHOOSE id \in known : MetaName(meta, id) = n ELSE 0]]
+
+\* the same without the coverage condition: whether an older record is skipped depends on the
+\* highest seqno left in the tables, i.e. on which compactions ran (not observable in replay)
+MayReplayOverIngested(js, known) ==
+    {id \in known :
+        /\ ing[id] # 0
+        /\ \E x \in 1..Len(js) : \E y \in 1..Len(js[x].recs) :
+              LET r == js[x].recs[y] IN
+              /\ r.s + 1 < ing[id]
               /\ \/ \E z \in 1..Len(r.clears) : r.clears[z] = id
                  \/ \E z \in 1..Len(r.items) : r.items[z].id = id}
 
 CloseReopen ==
     /\ nreopen < MaxReopen
-    /\ LET \* drop: every handle goes away; deleted keyspaces' folders are removed
-           dirs0  == dirs \ zombie
-           \* recover_keyspaces
-           known  == {id \in dirs0 : MetaResolves(meta, id)}
-           unref  == dirs0 \ known
-           highest == MaxOf(dirs0 \cup {1})
-           seedFix == MaxOf({highest} \cup
-                            UNION {{r.items[z].id : z \in 1..Len(r.items)} \cup
-                                   {r.clears[z] : z \in 1..Len(r.clears)} :
-                                     r \in UNION {{journals[x].recs[y] : y \in 1..Len(journals[x].recs)}
-                                                   : x \in 1..Len(journals)}})
-           L0 == [i \in Ids |-> IF i \in known
-                                THEN [a |-> {}, sl |-> <<>>, rn |-> lsm[i].rn, vs |-> 0]
-                                ELSE EmptyLsm]
-           sealedJs == SubSeq(journals, 1, Len(journals) - 1)
-           rs == RecoverSealed(L0, sealedJs, known,
-                               [L |-> L0, jm |-> <<>>, panic |-> FALSE, sq |-> 0])
-           L1 == ReplayRecs(rs.L, Active.recs, known, FixCovered)
-           sq1 == MaxOf({rs.sq} \cup {HighestSeqno(L1[i]) : i \in known})
-           sq1b == IF FixSeqno THEN MaxOf({sq1} \cup {s + 1 : s \in JournalSeqnos(journals)})
-                   ELSE sq1
-           sq2 == IF FixMetaSeqno THEN MaxOf({sq1b} \cup {e.s + 1 : e \in meta}) ELSE sq1b
-           tnt == ReplayOverIngested(journals, known)
-           km  == [n \in Names |-> IF \E id \in known : MetaName(meta, id) = n
-                                   THEN CHOOSE id \in known : MetaName(meta, id) = n ELSE 0]
-       IN
-       /\ ~rs.panic     \* a panicking recovery is reported by RecoveryNeverPanics below
-       /\ dirs' = known
-       /\ nextId' = IF FixIdSeed THEN seedFix + 1 ELSE highest + 1
-       /\ kmap' = km
-       /\ lsm' = L1
+    /\ LET R == Rec IN
+       /\ ~R.panic     \* a panicking recovery is reported by RecoveryNeverPanics below
+       /\ dirs' = R.known
+       /\ nextId' = R.nextId
+       /\ kmap' = R.km
+       /\ lsm' = R.L
        /\ old' = [i \in Ids |-> <<>>]
        /\ zombie' = {} /\ held' = {}
-       /\ jmgr' = rs.jm
+       /\ jmgr' = R.jm
        \* startup flush tasks: one per keyspace with sealed memtables, in hash-map order
-       /\ flushq' \in Perms({id \in known : L1[id].sl # <<>>})
-       /\ seqno' = sq2 /\ visible' = sq2
-       /\ views' = {} /\ trk' = [data |-> {}, wm |-> IF sq2 = 0 THEN 0 ELSE sq2 - 1]
+       /\ flushq' \in Perms({id \in R.known : R.L[id].sl # <<>>})
+       /\ seqno' = R.sq /\ visible' = R.sq
+       /\ views' = {} /\ trk' = [data |-> {}, wm |-> IF R.sq = 0 THEN 0 ELSE R.sq - 1]
        /\ frozen' = frozen
-       /\ taint' = (taint \cap known) \cup tnt
-       /\ kf' = IF \E s \in JournalSeqnos(journals) : sq2 <= s THEN kf \cup {"D12"} ELSE kf
+       /\ taint' = (taint \cap R.known) \cup R.tnt
+       /\ mtaint' = (mtaint \cap R.known) \cup MayReplayOverIngested(journals, R.known)
+       /\ kf' = IF \E s \in JournalSeqnos(journals) : R.sq <= s THEN kf \cup {"D12"} ELSE kf
        /\ last' = [a |-> "Reopen", fq |-> flushq']
-       /\ filt' = [i \in Ids |-> i \in known /\ MetaName(meta, i) \in FilterNames]
+       /\ filt' = [i \in Ids |-> i \in R.known /\ MetaName(meta, i) \in FilterNames]
     /\ nreopen' = nreopen + 1
     /\ UNCHANGED <<meta, journals, ref, ing, everDel, nops, nmaint, nviews>>
 
-\* the panic in recover_sealed_memtables (assert_eq on the sealed memtable's highest seqno)
-RecoveryPanics ==
-    LET dirs0  == dirs \ zombie
-        known  == {id \in dirs0 : MetaResolves(meta, id)}
-        L0 == [i \in Ids |-> IF i \in known
-                             THEN [a |-> {}, sl |-> <<>>, rn |-> lsm[i].rn, vs |-> 0]
-                             ELSE EmptyLsm]
-        rs == RecoverSealed(L0, SubSeq(journals, 1, Len(journals) - 1), known,
-                            [L |-> L0, jm |-> <<>>, panic |-> FALSE, sq |-> 0])
-    IN rs.panic
+RecoveryPanics == Rec.panic
 
 -----------------------------------------------------------------------------
 Next ==
@@ -759,6 +792,7 @@ Next ==
     \/ \E n \in Names : Rotate(n)
     \/ \E b \in BOOLEAN : WorkerFlush(b)
     \/ \E n \in Names, i, j \in 1..4 : Compact(n, i, j)
+    \/ \E m \in {"Buffer", "SyncData", "SyncAll"} : Persist(m)
     \/ OpenView
     \/ \E w \in views : CloseView(w)
     \/ TrackerGC
@@ -776,7 +810,7 @@ PointEqScan ==
     \A n \in LiveNames : Untainted(kmap[n]) =>
         \A k \in Keys : PointRead(kmap[n], k, Inf) = ScanRead(kmap[n], k, Inf)
 ViewEqRef ==
-    \A n \in LiveNames : Untainted(kmap[n]) =>
+    \A n \in LiveNames : (Untainted(kmap[n]) /\ ~filt[kmap[n]]) =>
         \A k \in Keys : ScanRead(kmap[n], k, Inf) = ref[n][k]
 
 \* C05: every live view still reads what it saw when it was opened, by point read and by
@@ -788,7 +822,7 @@ ViewsFrozen ==
            /\ \A k \in Keys :
                  /\ ScanRead(kmap[n], k, w.inst) = frozen[w.vid][n][k]
                  /\ PointRead(kmap[n], k, w.inst) = frozen[w.vid][n][k]
-WatermarkBelowLive == \A w \in views : trk.wm < w.inst \/ w.inst = 0
+WatermarkBelowLive == \A w \in views : trk.wm < w.inst \/ w.inst = 0   \* instant 0 always reads the oldest version
 
 \* C11: counters after (and between) reopens
 MaxEntrySeqno == MaxOf(UNION {{e.s + 1 : e \in lsm[i].a \cup UnionSeq(lsm[i].sl) \cup UnionSeq(lsm[i].rn)}
@@ -813,12 +847,47 @@ JournalsConsistent ==
     /\ Len(journals) = Len(jmgr) + 1
     /\ \A x \in 1..Len(jmgr) : jmgr[x].jid = journals[x].jid
     /\ \A x \in 1..(Len(journals) - 1) : journals[x].jid < journals[x + 1].jid
-\* every record of a keyspace that is not yet in its tables is still in some journal
-NothingNeededEvicted ==
-    \A id \in LiveIds : Untainted(id) =>
-        \A e \in lsm[id].a \cup UnionSeq(lsm[id].sl) :
-            \E x \in 1..Len(journals) : \E y \in 1..Len(journals[x].recs) :
-                journals[x].recs[y].s = e.s
+\* C02 / C10 at the granularity of this module (client operations atomic): whatever state
+\* the process dies in, recovery from the durable state yields the reference content for
+\* every keyspace - in particular right after any journal eviction
+CrashSafe ==
+    LET R == Rec IN
+    /\ ~R.panic
+    /\ \A n \in Names : R.km[n] = kmap[n] \/ kmap[n] \in zombie
+    /\ \A n \in LiveNames :
+          (kmap[n] \notin taint \cup R.tnt /\ ~filt[kmap[n]]) =>
+             \A k \in Keys : /\ ScanReadV(R.L[kmap[n]], k, Inf) = ref[n][k]
+                              /\ PointReadV(R.L[kmap[n]], k, Inf) = ref[n][k]
+
+\* once every keyspace has been flushed and journal maintenance ran, one journal file is left.
+\* Known finding D15: a keyspace whose tables were dropped by clear() (no tables, nothing to
+\* flush) can never satisfy its watermark, so the sealed journal stays until that keyspace is
+\* written and flushed again.
+AllFlushedNow == /\ last.a = "Flush"
+                 /\ \A id \in LiveIds : lsm[id].a = {} /\ lsm[id].sl = <<>>
+PinnedByEmptyKeyspace ==
+    /\ jmgr # <<>>
+    /\ \E w \in Head(jmgr).wm : /\ w.id \notin zombie
+                                 /\ HighestPersisted(lsm[w.id]) = 0
+                                 /\ lsm[w.id].a = {} /\ lsm[w.id].sl = <<>>
+AllFlushedOneJournal == (AllFlushedNow /\ ~PinnedByEmptyKeyspace) => Len(journals) = 1
+FindingD15 == AllFlushedNow /\ PinnedByEmptyKeyspace /\ Len(journals) > 1
+NoFinding_D15 == ~FindingD15
+
+\* C18: compaction filters
+FilteredFormOnly ==
+    \A n \in LiveNames : (Untainted(kmap[n]) /\ filt[kmap[n]]) =>
+        \A k \in Keys : LET v == ScanRead(kmap[n], k, Inf) IN
+            /\ (v = ref[n][k] \/ v = FilteredForm(k, ref[n][k]))
+            /\ PointRead(kmap[n], k, Inf) = v
+AssignedIffAssigner == \A n \in LiveNames : filt[kmap[n]] <=> (n \in FilterNames)
+\* a key observed in filtered form stays so until it is written again
+FilteredIsSticky ==
+    [][\A n \in Names : (kmap[n] # 0 /\ kmap'[n] = kmap[n] /\ filt[kmap[n]] /\ last'.a \notin {"Reopen"}) =>
+        \A k \in Keys :
+            (/\ ref'[n][k] = ref[n][k] /\ nops' = nops
+             /\ ScanRead(kmap[n], k, Inf) # ref[n][k]) =>
+                (ScanRead(kmap[n], k, Inf))' = ScanRead(kmap[n], k, Inf)]_vars
 
 \* C12
 Isolation == TRUE  \* by construction of ref per name; checked through ViewEqRef
